@@ -152,3 +152,38 @@ def replay_file(path, asserts):
 
 def trigger_rows(db, table):
     return db.t[table].rows
+
+
+def sqlite_validation(R, sizes, n1, g1, seq=('schedule', 'cancel_group', 'complete', 'u2_create', 'u2_jobs'), models=3):
+    """Translator validation of the relational core: concretise the symbolic state reached after `seq` under a few
+    solver-chosen models and compare SELECT results between the concrete interpreter and sqlite3."""
+    import z3
+    from . import sqlite_diff
+    t0 = time.time()
+    sc = build_prefix(sizes, n1, g1)
+    for idx, kind in enumerate(seq):
+        sc.apply(kind, idx)
+    s = z3.Solver()
+    s.add(*sc.inp.constraints)
+    s.add(*[c for c in sc.db.env_constraints if is_sym(c)])
+    if is_sym(sc.db.oob):
+        s.add(z3.Not(sc.db.oob))
+    cells = 0
+    n = 0
+    for _ in range(models):
+        if str(s.check()) != 'sat':
+            break
+        m = s.model()
+        cells += sqlite_diff.compare(model.concretize(sc.db, m))
+        n += 1
+        blk = [v != m.eval(v, model_completion=True) for name, v in sc.inp.vars.items()
+               if ('grp' in name or 'par_' in name or name.endswith('_job') or 'ar_' in name) and not z3.is_bool(v)][:8]
+        blk += [v != m.eval(v, model_completion=True) for name, v in sc.inp.vars.items() if z3.is_bool(v)][:4]
+        if not blk:
+            break
+        s.add(z3.Or(*blk))
+    if n == 0:
+        raise HarnessError('sqlite validation: no model')
+    R.validation_points += cells
+    R.ob(f'sqlsym relational core agrees with sqlite3 on {len(sqlite_diff.QUERIES)} queries over {n} solver-chosen states',
+         'discharged', time.time() - t0, {'cells_compared': cells}, nontrivial=True)
